@@ -292,6 +292,35 @@ def cli_loop(rec, rnd, tmp, k):
     shutil.rmtree(b, ignore_errors=True)
 
 
+def judge_other_stdout_encodings(rec, tmp):
+    """`tally discover` printing to a terminal / pipe whose encoding is not UTF-8 (a legacy locale, PYTHONIOENCODING): whatever rule text it does print is a
+    rule for one of the budget's uncategorised descriptions - it loads and matches it.  (It may also refuse to print what it cannot encode.)"""
+    from tally.merchant_engine import parse_merchants
+    descs = ['PLAIN SHOP 12', 'CAF\u00c9 BLEU PARIS', '\u017bABKA Z5123 WARSZAWA', 'B\u00e4ckerei M\u00fcller 7', 'SECOND PLAIN STORE']
+    b = make_budget(tmp, 7700, descs)
+    case = {'kind': 'stdout-encoding'}
+    for enc in ('latin-1', 'ascii', 'cp1252', 'utf-8'):
+        env = dict(os.environ, PYTHONPATH=core.SRC, PYTHONDONTWRITEBYTECODE='1', NO_COLOR='1', PYTHONIOENCODING=enc)
+        env.pop('TALLY_CONFIG', None)
+        p = subprocess.run([core.PY, '-m', 'tally', 'discover', os.path.join(b, 'config'), '--format', 'text', '-n', '0'], cwd=b, env=env, capture_output=True,
+                           stdin=subprocess.DEVNULL, timeout=180)
+        out = p.stdout.decode(enc, 'replace')
+        rec.case()
+        rec.count('discover_runs_with_another_stdout_encoding')
+        for name, match in re.findall(r'^\s*\[(.*)\]\n\s*match: (.*)\n\s*category: CATEGORY', out, re.M):
+            rec.count('rule_blocks_printed_under_another_encoding')
+            try:
+                eng = parse_merchants('[%s]\nmatch: %s\ncategory: Cat\nsubcategory: Sub\n' % (name, match))
+                hit = [d for d in descs if eng.match({'description': d, 'amount': 5.0}).matched]
+            except Exception as e:
+                hit = 'rejected by the loader: %s' % e
+            if not hit or isinstance(hit, str):
+                rec.violation('printed-suggestion-matches-no-description:stdout-encoding', f'stdout encoding {enc}: discover printed the rule [{name}] match: {match} - '
+                              f'{"it matches none of the uncategorised descriptions " + repr(descs) if not hit else hit}', case)
+                break
+    shutil.rmtree(b, ignore_errors=True)
+
+
 def run(rec, shard, nshards, t):
     core.import_tally()
     rnd = core.rng_for('C19', shard)
@@ -310,6 +339,7 @@ def run(rec, shard, nshards, t):
         if shard == 0:
             for d in ['WHOLE FOODS MARKET 10234 SEATTLE WA', 'STARBUCKS #123 SEATTLE', 'SQ *BLUE BOTTLE COFFEE', 'AT&T*BILL PAYMENT', 'C++ BOOKS (USED)']:
                 library_check(rec, d)
+            judge_other_stdout_encodings(rec, tmp)
     finally:
         shutil.rmtree(tmp, ignore_errors=True)
 
@@ -321,6 +351,9 @@ def replay(rec, case):
     tmp = tempfile.mkdtemp(prefix='vt-c19-')
     try:
         rnd = core.rng_for('C19', 'replay')
+        if case['kind'] == 'stdout-encoding':
+            judge_other_stdout_encodings(rec, tmp)
+            return
         for k in range(4):
             cli_loop(rec, rnd, tmp, k)
     finally:
